@@ -45,27 +45,42 @@ class Comp:
         self.tags, self.blob, self.enc = tags, blob, enc
 
 
-def ref_binary(comps: List[Comp], offset: int, sk: Term) -> List[Term]:
-    """the documented layout, written independently of the repo's writer"""
+def ref_binary(comps: List[Comp], offset: int, sk: Term, defect: Optional[str] = None) -> List[Term]:
+    """the documented layout, written independently of the repo's writer.  `defect` builds an image that is consistent (all MACs
+    recomputed) except for ONE named rule of the format -- used to test that the reader enforces that rule"""
     stored = [cbc(sk, pad0(c.blob)) if c.enc else list(c.blob) for c in comps]
     tlvs = []
-    for c in comps:
+    for ci, c in enumerate(comps):
         t: List[Term] = []
-        for tag, val in c.tags:
+        tags = list(c.tags)
+        if defect == "duplicate-tag" and ci == 0 and tags:
+            tags = tags + [tags[0]]
+        for tag, val in tags:
             t += [C(tag), C(len(val))] + list(val)
         tlvs.append(t)
     entry_len = [4 + 4 + 4 + 16 + 1 + len(t) + 16 for t in tlvs]
-    dir_size = 4 + sum(1 + e for e in entry_len) + 1
+    sentinel = [] if defect == "no-sentinel" else [C(0)]
+    dir_size = 4 + sum(1 + e for e in entry_len) + len(sentinel)
     adr = offset + dir_size
-    out: List[Term] = be(dir_size - 4, 4)
+    if defect == "address-off-by-one":
+        adr += 1
+    size_field = dir_size - 4 + (1 if defect == "dir-size-too-large" else 0)
+    out: List[Term] = be(size_field, 4)
     for i, c in enumerate(comps):
-        e: List[Term] = be(adr, 4) + be(len(stored[i]), 4) + be(len(c.blob), 4) + mac(sk, stored[i]) + [C(len(tlvs[i]))] + tlvs[i]
-        e += mac(sk, e, be(i + 1, 16))
+        declared = len(c.blob) + (len(stored[i]) - len(c.blob) + 1 if defect == "declared-exceeds-stored" and i == 0 else 0)
+        e: List[Term] = be(adr, 4) + be(len(stored[i]), 4) + be(declared, 4) + mac(sk, stored[i]) + [C(len(tlvs[i]))] + tlvs[i]
+        e += mac(sk, e, be(i + 1 + (1 if defect == "entry-index-shifted" else 0), 16))
         out += [C(len(e))] + e
         adr += len(stored[i])
-    out += [C(0)]
-    for s_ in stored:
+        if defect == "gap-between-payloads" and i == 0:
+            adr += 1
+    out += sentinel
+    for i, s_ in enumerate(stored):
         out += s_
+        if defect == "gap-between-payloads" and i == 0 and len(stored) > 1:
+            out += [C(0)]
+    if defect == "address-off-by-one":
+        out = out[:dir_size] + [C(0)] + out[dir_size:]
     return out
 
 
